@@ -41,14 +41,18 @@ Record inc := mkInc {
   chanfull : bool;    (* len(healthCheckCh) = 1 *)
   hascancel : bool;   (* cancelHealthCheck != nil *)
   gens : list gen;
+  icl : Z;            (* the ClusterInfo object (cluster generation) this endpoint belongs to *)
 }.
 
 Record st := mkSt {
   incs : list inc;                 (* every EndpointInfo ever created, in creation order *)
   servers : list (Z * bool);       (* spec.servers of the last sync: (endpoint, disabled) *)
   subsets : list (list Z);         (* UpstreamSubset of policies 0,1,... of the last sync *)
-  pickers : list (Z * list Z);     (* slot -> upstreams captured by MatchAttributes *)
+  pickers : list (Z * (Z * list Z));   (* slot -> (ClusterInfo object, upstreams captured by MatchAttributes) *)
   nextseq : Z;
+  cgen : Z;                        (* the ClusterInfo object the manager holds (or held last) under the cluster's name *)
+  cexists : bool;                  (* the name is bound: the cluster exists; false after DeleteWithStop *)
+  handles : list (Z * Z);          (* slot -> ClusterInfo object kept by a caller (extraInfo.UpstreamCluster, ClientFor) *)
 }.
 
 Inductive event :=
@@ -57,7 +61,8 @@ Inductive event :=
 | ENone                  (* Pop returned ErrNoReadyEndpoints *)
 | EContact (id : Z)      (* the dispatcher forwarded the request to endpoint id *)
 | E503                   (* the dispatcher answered 503 *)
-| ENoMatch.              (* no policy matched: 500 *)
+| ENoMatch               (* no policy matched: 500 *)
+| ENoCluster.            (* the manager has no cluster under the name *)
 
 Inductive outcome := POk | PFail.   (* /healthz 200 | anything else (non-200, error, timeout) *)
 
@@ -70,13 +75,13 @@ Fixpoint upd_nth {A} (n : nat) (f : A -> A) (l : list A) : list A :=
   end.
 
 Definition set_gens (i : inc) (g : list gen) : inc :=
-  mkInc (iid i) (live i) (disabled i) (healthy i) (ucount i) (chanfull i) (hascancel i) g.
+  mkInc (iid i) (live i) (disabled i) (healthy i) (ucount i) (chanfull i) (hascancel i) g (icl i).
 Definition set_chan (i : inc) (b : bool) : inc :=
-  mkInc (iid i) (live i) (disabled i) (healthy i) (ucount i) b (hascancel i) (gens i).
+  mkInc (iid i) (live i) (disabled i) (healthy i) (ucount i) b (hascancel i) (gens i) (icl i).
 Definition set_status (i : inc) (h : bool) (u : Z) : inc :=
-  mkInc (iid i) (live i) (disabled i) h u (chanfull i) (hascancel i) (gens i).
+  mkInc (iid i) (live i) (disabled i) h u (chanfull i) (hascancel i) (gens i) (icl i).
 Definition set_incs (s : st) (l : list inc) : st :=
-  mkSt l (servers s) (subsets s) (pickers s) (nextseq s).
+  mkSt l (servers s) (subsets s) (pickers s) (nextseq s) (cgen s) (cexists s) (handles s).
 
 Definition cancel_gen (g : gen) : gen := mkGen true (tpend g) (tp g) (wp g) (pseq g).
 Definition cancel_all (l : list gen) : list gen := map cancel_gen l.
@@ -88,43 +93,59 @@ Definition new_gen : gen := mkGen false false TSend WSel 0.
 Definition wanted (sv : list (Z * bool)) (id : Z) : bool := existsb (fun p => fst p =? id) sv.
 Definition dis_in (sv : list (Z * bool)) (id : Z) : bool := existsb (fun p => (fst p =? id) && snd p) sv.
 
-(* deleted.Range: LoadAndDelete + info.cancel() *)
-Definition sync_delete (sv : list (Z * bool)) (i : inc) : inc :=
-  if live i && negb (wanted sv (iid i)) then
-    mkInc (iid i) false (disabled i) (healthy i) (ucount i) (chanfull i) (hascancel i) (cancel_all (gens i))
+(* deleted.Range: LoadAndDelete + info.cancel()   (c: the ClusterInfo object being synced) *)
+Definition sync_delete (c : Z) (sv : list (Z * bool)) (i : inc) : inc :=
+  if (icl i =? c) && live i && negb (wanted sv (iid i)) then
+    mkInc (iid i) false (disabled i) (healthy i) (ucount i) (chanfull i) (hascancel i) (cancel_all (gens i)) (icl i)
   else i.
 
 (* EnsureGatewayHealthCheck *)
 Definition ensure (i : inc) : inc :=
   let i1 := if disabled i && hascancel i then
-              mkInc (iid i) (live i) (disabled i) (healthy i) (ucount i) (chanfull i) false (cancel_all (gens i))
+              mkInc (iid i) (live i) (disabled i) (healthy i) (ucount i) (chanfull i) false (cancel_all (gens i)) (icl i)
             else i in
   if negb (disabled i1) && negb (hascancel i1) then
-    mkInc (iid i1) (live i1) (disabled i1) (healthy i1) (ucount i1) (chanfull i1) true (gens i1 ++ [new_gen])
+    mkInc (iid i1) (live i1) (disabled i1) (healthy i1) (ucount i1) (chanfull i1) true (gens i1 ++ [new_gen]) (icl i1)
   else i1.
 
 (* addOrUpdateEndpoint on an existing endpoint: SetDisabled + EnsureGatewayHealthCheck *)
-Definition sync_update (sv : list (Z * bool)) (i : inc) : inc :=
-  if live i then
-    ensure (mkInc (iid i) (live i) (dis_in sv (iid i)) (healthy i) (ucount i) (chanfull i) (hascancel i) (gens i))
+Definition sync_update (c : Z) (sv : list (Z * bool)) (i : inc) : inc :=
+  if (icl i =? c) && live i then
+    ensure (mkInc (iid i) (live i) (dis_in sv (iid i)) (healthy i) (ucount i) (chanfull i) (hascancel i) (gens i) (icl i))
   else i.
 
-Definition has_live (l : list inc) (id : Z) : bool := existsb (fun i => live i && (iid i =? id)) l.
+Definition has_live (l : list inc) (c id : Z) : bool := existsb (fun i => live i && (iid i =? id) && (icl i =? c)) l.
 
 (* addOrUpdateEndpoint on a new endpoint: Healthy=false, then EnsureGatewayHealthCheck *)
-Definition new_inc (id : Z) (d : bool) : inc := ensure (mkInc id true d false 0 false false []).
+Definition new_inc (c id : Z) (d : bool) : inc := ensure (mkInc id true d false 0 false false [] c).
 
-Fixpoint sync_add (sv : list (Z * bool)) (todo : list Z) (l : list inc) : list inc :=
+Fixpoint sync_add (c : Z) (sv : list (Z * bool)) (todo : list Z) (l : list inc) : list inc :=
   match todo with
   | [] => l
-  | id :: r => if has_live l id then sync_add sv r l else sync_add sv r (l ++ [new_inc id (dis_in sv id)])
+  | id :: r => if has_live l c id then sync_add c sv r l else sync_add c sv r (l ++ [new_inc c id (dis_in sv id)])
   end.
 
+(* the controller's sync handler: the cluster exists -> ClusterInfo.Sync on it; it does not (never
+   created, or deleted) -> CreateClusterInfo = a NEW ClusterInfo object + Sync, bound under the name *)
 Definition do_sync (sv : list (Z * bool)) (subs : list (list Z)) (s : st) : st :=
-  let l1 := map (sync_delete sv) (incs s) in
-  let l2 := map (sync_update sv) l1 in
-  let l3 := sync_add sv (map fst sv) l2 in
-  mkSt l3 sv subs (pickers s) (nextseq s).
+  let c := if cexists s then cgen s else cgen s + 1 in
+  let l1 := map (sync_delete c sv) (incs s) in
+  let l2 := map (sync_update c sv) l1 in
+  let l3 := sync_add c sv (map fst sv) l2 in
+  mkSt l3 sv subs (pickers s) (nextseq s) c true (handles s).
+
+(* the controller's delete path: DeleteWithStop unbinds the name and calls ClusterInfo.Stop: the cluster
+   context is cancelled, and with it every endpoint context and probe context of that ClusterInfo.  The
+   endpoints STAY in the stopped ClusterInfo's map with their last status (a caller that still holds the
+   ClusterInfo or a picker can look them up) *)
+Definition do_delete (s : st) : st :=
+  if cexists s then
+    mkSt (map (fun i => if icl i =? cgen s then
+                          mkInc (iid i) (live i) (disabled i) (healthy i) (ucount i) (chanfull i) (hascancel i)
+                                (cancel_all (gens i)) (icl i)
+                        else i) (incs s))
+         [] [] (pickers s) (nextseq s) (cgen s) false (handles s)
+  else s.
 
 (* ---------- goroutine steps ---------- *)
 (* ticker goroutine: for { select { case <-tick.C: ch <- {} ; case <-ctx.Done(): return } } *)
@@ -192,28 +213,35 @@ Definition on_gen (k gi : nat) (f : inc -> gen -> inc * gen * list event) (s : s
   end.
 
 (* ---------- picking ---------- *)
-Definition find_live (l : list inc) (id : Z) : option inc := find (fun i => live i && (iid i =? id)) l.
+(* lookup in the endpoint map of ClusterInfo object c *)
+Definition find_live (l : list inc) (c id : Z) : option inc :=
+  find (fun i => live i && (iid i =? id) && (icl i =? c)) l.
 Definition is_ready (i : inc) : bool := negb (disabled i) && healthy i.
-Definition live_ids (l : list inc) : list Z := map iid (filter live l).
+Definition live_ids (l : list inc) (c : Z) : list Z := map iid (filter (fun i => live i && (icl i =? c)) l).
 
-(* Pop's filter: upstreams that are present in Endpoints and IsReady().  Since fix 9edc511 Pop also
-   skips an endpoint whose context is done; in this model (no cluster Stop, that is C15) an endpoint
-   context is done exactly when the endpoint was removed, i.e. when it is not [live], and [find_live]
-   only returns live endpoints — so the extra test never changes the result here. *)
-Definition ready_of (l : list inc) (ups : list Z) : list Z :=
-  filter (fun id => match find_live l id with Some i => is_ready i | None => false end) ups.
+(* the context of an endpoint of ClusterInfo object c is done when the endpoint was removed (then it is
+   not in the map any more) or when c was stopped: c is not the object the manager holds now *)
+Definition stopped (s : st) (c : Z) : bool := negb (cexists s && (c =? cgen s)).
+
+(* Pop's filter on a picker of ClusterInfo object c: upstreams that are present in c's endpoint map,
+   whose context is not done (fix 9edc511: a stopped endpoint is never ready, whatever its frozen
+   Disabled/Healthy flags) and that are IsReady() *)
+Definition ready_of (s : st) (c : Z) (ups : list Z) : list Z :=
+  filter (fun id => match find_live (incs s) c id with
+                    | Some i => negb (stopped s c) && is_ready i
+                    | None => false end) ups.
 
 (* MatchAttributes: policy p < number of subset policies: its subset or, when empty, AllEndpoints();
    the catch-all policy (p = number of subset policies): AllEndpoints(); beyond: no policy matches *)
 Definition upstreams_of (s : st) (p : Z) : option (list Z) :=
   if (p <? 0) then None
   else match nth_error (subsets s) (Z.to_nat p) with
-       | Some sub => Some (match sub with [] => live_ids (incs s) | _ => sub end)
-       | None => if p =? Z.of_nat (List.length (subsets s)) then Some (live_ids (incs s)) else None
+       | Some sub => Some (match sub with [] => live_ids (incs s) (cgen s) | _ => sub end)
+       | None => if p =? Z.of_nat (List.length (subsets s)) then Some (live_ids (incs s) (cgen s)) else None
        end.
 
-Definition pop (l : list inc) (ups : list Z) (choice : nat) : option Z :=
-  match ready_of l ups with
+Definition pop (s : st) (c : Z) (ups : list Z) (choice : nat) : option Z :=
+  match ready_of s c ups with
   | [] => None
   | r => nth_error r (Nat.modulo choice (List.length r))
   end.
@@ -239,7 +267,10 @@ Inductive mstep :=
 | MTrigger (id : Z)                      (* EndpointInfo.TriggerHealthCheck *)
 | MMatch (p slot : Z)
 | MPop (slot : Z) (choice : nat)
-| MRequest (p : Z) (choice : nat).       (* dispatcher: MatchAttributes; Pop; forward *)
+| MRequest (p : Z) (choice : nat)        (* gateway: resolve the cluster; dispatcher: MatchAttributes; Pop; forward *)
+| MDelete                                (* the UpstreamCluster object is deleted: DeleteWithStop *)
+| MHold (slot : Z)                       (* a caller resolves the cluster and keeps the ClusterInfo *)
+| MPickOne (slot : Z) (choice : nat).    (* ClusterInfo.PickOne on a kept ClusterInfo *)
 
 Definition micro (rc : bool) (s : st) (m : mstep) : st * list event :=
   match m with
@@ -248,34 +279,53 @@ Definition micro (rc : bool) (s : st) (m : mstep) : st * list event :=
   | MTicker k gi b => on_gen k gi (fun i g => (ticker_step b i g, [])) s
   | MWorker k gi b =>
       let '(s', ev) := on_gen k gi (worker_step rc b (nextseq s)) s in
-      (mkSt (incs s') (servers s') (subsets s') (pickers s') (nextseq s + 1), ev)
+      (mkSt (incs s') (servers s') (subsets s') (pickers s') (nextseq s + 1) (cgen s') (cexists s') (handles s'), ev)
   | MProbeDone k gi r => on_gen k gi (fun i g => (probe_done r i g, [])) s
   | MTrigger id =>
-      (set_incs s (map (fun i => if live i && (iid i =? id) then set_chan i true else i) (incs s)), [])
+      (set_incs s (map (fun i => if live i && (iid i =? id) && (icl i =? cgen s) && cexists s
+                                 then set_chan i true else i) (incs s)), [])
   | MMatch p slot =>
+      if negb (cexists s) then (s, [ENoCluster]) else
       match upstreams_of s p with
-      | Some ups => (mkSt (incs s) (servers s) (subsets s) ((slot, ups) :: zrem slot (pickers s)) (nextseq s), [])
-      | None => (mkSt (incs s) (servers s) (subsets s) (zrem slot (pickers s)) (nextseq s), [ENoMatch])
+      | Some ups => (mkSt (incs s) (servers s) (subsets s) ((slot, (cgen s, ups)) :: zrem slot (pickers s)) (nextseq s)
+                          (cgen s) (cexists s) (handles s), [])
+      | None => (mkSt (incs s) (servers s) (subsets s) (zrem slot (pickers s)) (nextseq s)
+                      (cgen s) (cexists s) (handles s), [ENoMatch])
       end
   | MPop slot choice =>
       match zlook slot (pickers s) with
       | None => (s, [])
-      | Some ups => match pop (incs s) ups choice with
-                    | Some id => (s, [EPick id])
-                    | None => (s, [ENone])
-                    end
+      | Some (c, ups) => match pop s c ups choice with
+                         | Some id => (s, [EPick id])
+                         | None => (s, [ENone])
+                         end
       end
   | MRequest p choice =>
+      if negb (cexists s) then (s, [E503]) else      (* "the request cluster is not being proxied" *)
       match upstreams_of s p with
       | None => (s, [ENoMatch])
-      | Some ups => match pop (incs s) ups choice with
+      | Some ups => match pop s (cgen s) ups choice with
                     | Some id => (s, [EPick id; EContact id])
                     | None => (s, [ENone; E503])
                     end
       end
+  | MDelete => (do_delete s, [])
+  | MHold slot =>
+      if cexists s then
+        (mkSt (incs s) (servers s) (subsets s) (pickers s) (nextseq s) (cgen s) (cexists s)
+              ((slot, cgen s) :: zrem slot (handles s)), [])
+      else (s, [ENoCluster])
+  | MPickOne slot choice =>
+      match zlook slot (handles s) with
+      | None => (s, [])
+      | Some c => match pop s c (live_ids (incs s) c) choice with
+                  | Some id => (s, [EPick id])
+                  | None => (s, [ENone])
+                  end
+      end
   end.
 
-Definition init : st := mkSt [] [] [] [] 0.
+Definition init : st := mkSt [] [] [] [] 0 0 false [].
 
 (* state after a schedule, and the list of (state before the step, step, events of the step) *)
 Fixpoint run_micro (rc : bool) (s : st) (ms : list mstep) : st :=
@@ -292,7 +342,10 @@ Inductive op :=
 | OTrigger (id : Z)
 | OMatch (p slot : Z)
 | OPop (slot : Z)
-| ORequest (p : Z).
+| ORequest (p : Z)
+| ODelete
+| OHold (slot : Z)
+| OPickOne (slot : Z).
 
 Definition tpc_eqb (a b : tpc) : bool :=
   match a, b with TSel, TSel | TSend, TSend | TExit, TExit => true | _, _ => false end.
@@ -409,6 +462,9 @@ Definition action (s : st) (o : op) (choice : nat) : list mstep :=
   | OMatch p slot => [MMatch p slot]
   | OPop slot => [MPop slot choice]
   | ORequest p => [MRequest p choice]
+  | ODelete => [MDelete]
+  | OHold slot => [MHold slot]
+  | OPickOne slot => [MPickOne slot choice]
   end.
 
 Fixpoint run_events (rc : bool) (s : st) (ms : list mstep) (acc : list event) : st * list event :=
